@@ -341,7 +341,7 @@ Lemma signed_wrapper_exact lo hi rlo rhi base s v :
 Proof.
   intros Hb Hlo Hhi. unfold signed_wrapper, strtos. split.
   - destruct (strto_core base s) as [[neg mag] e] eqn:C.
-    set (sv := if neg then - mag else mag).
+    remember (if neg then - mag else mag) as sv eqn:Hsv.
     assert (K : forall ret er, (ret, e, er) = (if sv <? lo then (lo, e, true) else if sv >? hi then (hi, e, true) else (sv, e, false)) ->
                 (if (e =? 0)%nat then None else if negb (tail_ok s e) then None
                  else if ((ret =? hi) || (ret =? lo)) && er then None
@@ -360,11 +360,12 @@ Proof.
       destruct H1 as [-> Rg]. split; [|exact Rg].
       destruct (core_sound base s neg mag e Hb C E0 T) as (ws1 & sg & body & Es & W1 & Sg & Nm).
       exists ws1, sg, body, (skipn e s), neg, mag. repeat split; assumption. }
-    destruct (sv <? lo) eqn:A; [apply K; rewrite A; reflexivity|].
-    destruct (sv >? hi) eqn:A2; apply K; rewrite A, A2; reflexivity.
+    destruct (sv <? lo) eqn:A; [intro R; apply (K lo true); [try rewrite A; reflexivity|exact R]|].
+    destruct (sv >? hi) eqn:A2; intro R; [apply (K hi true)|apply (K sv false)];
+      try exact R; try rewrite A; try rewrite A2; reflexivity.
   - intros [(ws1 & sg & body & ws2 & neg & mag & -> & W1 & W2 & Sg & Nm & ->) Rg].
     rewrite (core_complete base ws1 sg body ws2 neg mag Hb W1 W2 Sg Nm).
-    set (sv := if neg then - mag else mag) in *.
+    remember (if neg then - mag else mag) as sv eqn:Hsv.
     assert (A : (sv <? lo) = false) by (apply Z.ltb_ge; lia). rewrite A.
     assert (A2 : (sv >? hi) = false) by (rewrite Z.gtb_ltb; apply Z.ltb_ge; lia). rewrite A2.
     assert (E0 : (length (ws1 ++ sg ++ body) =? 0)%nat = false) by (apply Nat.eqb_neq; eapply wf_len_pos; eassumption).
@@ -442,33 +443,35 @@ Lemma unsigned_wrapper_exact umax rhi chk base s v :
 Proof.
   intros Hb Hr Hchk. unfold unsigned_wrapper, strtou. split.
   - destruct (strto_core base s) as [[neg mag] e] eqn:C.
-    destruct (e =? 0)%nat eqn:E0.
-    { destruct (mag >? umax); discriminate. }
-    apply Nat.eqb_neq in E0.
-    destruct (tail_ok s e) eqn:T.
-    2:{ destruct (mag >? umax); cbn [negb]; discriminate. }
-    apply tail_ok_spec in T.
+    intro R.
+    assert (P : exists ret er,
+      (ret, e, er) = (if mag >? umax then (umax, e, true)
+                      else ((if neg then (umax + 1 - mag) mod (umax + 1) else mag), e, false)) /\
+      (if (e =? 0)%nat then None else if negb (tail_ok s e) then None else if chk ret er then None
+       else if negb (ret =? 0) && has_minus s then None else Some ret) = Some v).
+    { destruct (mag >? umax); eexists; eexists; (split; [reflexivity|exact R]). }
+    clear R. destruct P as (ret & er & Eq & R).
+    destruct (e =? 0)%nat eqn:E0; [discriminate|]. apply Nat.eqb_neq in E0.
+    destruct (tail_ok s e) eqn:T; [|discriminate]. cbn [negb] in R. apply tail_ok_spec in T.
     destruct (core_sound base s neg mag e Hb C E0 T) as (ws1 & sg & body & Es & W1 & Sg & Nm).
     destruct (numeral_head _ _ _ Hb Nm) as (_ & _ & _ & _ & Mg).
     assert (HM : has_minus s = neg) by (rewrite Es; eapply has_minus_wf; eassumption).
-    destruct (mag >? umax) eqn:A; cbn [negb].
-    + destruct (chk umax true) eqn:K; [discriminate|].
+    destruct (chk ret er) eqn:K; [discriminate|].
+    rewrite HM in R.
+    destruct (negb (ret =? 0) && neg) eqn:Z0; [discriminate|]. injection R as <-.
+    destruct (mag >? umax) eqn:A.
+    + injection Eq as -> ->.
       apply (Hchk umax true ltac:(lia) ltac:(auto)) in K. destruct K; discriminate.
-    + breflect.
-      set (ret := if neg then (umax + 1 - mag) mod (umax + 1) else mag).
-      assert (Rr : 0 <= ret <= umax).
-      { subst ret. destruct neg; [|lia]. pose proof (Z.mod_pos_bound (umax + 1 - mag) (umax + 1) ltac:(lia)). lia. }
-      destruct (chk ret false) eqn:K; [discriminate|].
-      apply (Hchk ret false Rr ltac:(discriminate)) in K. destruct K as [_ K].
-      rewrite HM.
-      destruct (negb (ret =? 0) && neg) eqn:Z0; [discriminate|].
-      intro R. inversion R; subst v. clear R.
-      assert (ret = (if neg then - mag else mag)).
-      { subst ret. destruct neg; [|reflexivity]. cbn [andb] in Z0. rewrite andb_true_r in Z0. breflect.
-        destruct (Z.eq_dec mag 0) as [->|NZ]; [reflexivity|].
+    + injection Eq as -> ->. breflect.
+      assert (Rr : 0 <= (if neg then (umax + 1 - mag) mod (umax + 1) else mag) <= umax).
+      { destruct neg; [|lia]. pose proof (Z.mod_pos_bound (umax + 1 - mag) (umax + 1) ltac:(lia)). lia. }
+      apply (Hchk _ false Rr ltac:(discriminate)) in K. destruct K as [_ K].
+      assert (Ev : (if neg then (umax + 1 - mag) mod (umax + 1) else mag) = (if neg then - mag else mag)).
+      { destruct neg; [|reflexivity]. rewrite andb_true_r in Z0. breflect.
+        destruct (Z.eq_dec mag 0) as [->|NZ]; [rewrite Z.sub_0_r, Z.mod_same by lia; reflexivity|].
         rewrite Z.mod_small in Z0 by lia. lia. }
-      split; [|lia].
-      exists ws1, sg, body, (skipn e s), neg, mag. repeat split; assumption.
+      split; [|rewrite Ev in *; lia].
+      exists ws1, sg, body, (skipn e s), neg, mag. repeat split; try assumption.
   - intros [(ws1 & sg & body & ws2 & neg & mag & -> & W1 & W2 & Sg & Nm & ->) Rg].
     rewrite (core_complete base ws1 sg body ws2 neg mag Hb W1 W2 Sg Nm).
     destruct (numeral_head _ _ _ Hb Nm) as (_ & _ & _ & _ & Mg).
